@@ -771,7 +771,9 @@ impl<Backing : AsRef<[u32]> + AsMut<[u32]>> DrawTarget<Backing> {
     /// Fills the current clip with the solid color `solid`
     pub fn clear(&mut self, solid: SolidSource) {
         let mut pb = PathBuilder::new();
-        if self.clip_stack.is_empty() {
+        // the direct fill of the backing buffer is only right when that buffer is
+        // what is being drawn to, i.e. when no layer is open
+        if self.clip_stack.is_empty() && self.layer_stack.is_empty() {
             let color = solid.to_u32();
             for pixel in self.buf.as_mut() {
                 *pixel = color;
